@@ -1187,12 +1187,12 @@ impl Check for C10 {
         }
     }
     fn rule(&self) -> String {
-        "each evaluation = one generated world (mostly without dead-end vertices, so every loop turn of the search shows as one expansion group) with a termination model drawn per family: runtime limit 0/1/2/60 s with check frequency 1-8, iteration limit 0-13, solution-size limit 0-13, or a combination in a generated order; a batch of 1-10 queries on a simulated pool of 1-5 workers. The simulator owns the clock: ticks of 1 us per read plus, per run, clock jumps at clock reads and/or stalls of a single worker at expansion points (per-event rate 0-0.2) of one or two limits' length. A harness-side frontier-model wrapper logs query starts and expansions; a reference model of the limits walks each query's history (start read, scheduled check reads with the values the search was given, expansions). Outcomes are also compared with the same query under no limit (identical result when it returns; stopped iff the unlimited search needs more than the limit). non-trivial = every run; distinct = distinct (batch, limits, schedule hash, fault count). Round 2/3 families: combined models nested up to four levels; ksp = single-via, both sub-searches walked (reverse search keyed by edge destination) under runtime / iteration / combined limits; yens = Yen's algorithm with a similarity threshold and pairs three or more hops apart, every spur search under the iteration limit; deadends = a third of the vertices without outgoing edges, iteration limit + a runtime check at every loop turn, so that the clock reads count the loop turns (a harness output plugin marks where a successful search returned); edge = edge-oriented queries Round 6: the solution-size limit is walked against a reference model of the search tree (distinct vertices reached through admitted edges); Yen's sub-searches are walked under every limit kind (history split at the cost-estimate calls a traversal-model wrapper reports; each sub-search has a budget and a tree of its own); family neighbour = a second caller thread runs a batch of its own into a response file that fails while the first caller's searches are walked. Round 7: iteration limits around the vertex count; estimates that overshoot (weight_factor above 1, edges shorter than the straight line) make searches re-open vertices - family reopen = small dense networks on which a search takes more loop turns than there are vertices; the neighbouring caller of family neighbour offers sections of the application configuration (termination, algorithm) as per-run overrides.".into()
+        "each evaluation = one generated world (mostly without dead-end vertices, so every loop turn of the search shows as one expansion group) with a termination model drawn per family: runtime limit 0/1/2/60 s with check frequency 1-8, iteration limit 0-13, solution-size limit 0-13, or a combination in a generated order; a batch of 1-10 queries on a simulated pool of 1-5 workers. The simulator owns the clock: ticks of 1 us per read plus, per run, clock jumps at clock reads and/or stalls of a single worker at expansion points (per-event rate 0-0.2) of one or two limits' length. A harness-side frontier-model wrapper logs query starts and expansions; a reference model of the limits walks each query's history (start read, scheduled check reads with the values the search was given, expansions). Outcomes are also compared with the same query under no limit (identical result when it returns; stopped iff the unlimited search needs more than the limit). non-trivial = every run; distinct = distinct (batch, limits, schedule hash, fault count). Round 2/3 families: combined models nested up to four levels; ksp = single-via, both sub-searches walked (reverse search keyed by edge destination) under runtime / iteration / combined limits; yens = Yen's algorithm with a similarity threshold and pairs three or more hops apart, every spur search under the iteration limit; deadends = a third of the vertices without outgoing edges, iteration limit + a runtime check at every loop turn, so that the clock reads count the loop turns (a harness output plugin marks where a successful search returned); edge = edge-oriented queries Round 6: the solution-size limit is walked against a reference model of the search tree (distinct vertices reached through admitted edges); Yen's sub-searches are walked under every limit kind (history split at the cost-estimate calls a traversal-model wrapper reports; each sub-search has a budget and a tree of its own); family neighbour = a second caller thread runs a batch of its own into a response file that fails while the first caller's searches are walked. Round 7: iteration limits around the vertex count; estimates that overshoot (weight_factor above 1, edges shorter than the straight line) make searches re-open vertices - family reopen = small dense networks on which a search takes more loop turns than there are vertices; the neighbouring caller of family neighbour offers sections of the application configuration (termination, algorithm) as per-run overrides. Rounds 8-9: with counting limits and a plain search the case goes on after its explored run - 2-5 times an application with generous limits is built, used and dropped and the case's own application is built again: it answers the batch as the first one did; a runtime limit may be configured without naming its type (the shipped default); single-via k-shortest-paths under solution-size limits, judged on the outcome (an error, or as many routes as without limits).".into()
     }
     fn assumptions(&self) -> Vec<String> {
         vec![
             "the exact walk is only applied in worlds without dead-end vertices; elsewhere loop turns that expand nothing are invisible and only the outcome clauses are checked".into(),
-            "the solution-size limit is walked with a reference model of the search tree (the distinct vertices reached through admitted edges so far; agreement with the size every returned search reports is counted in reach): it must fire at the first loop turn that finds the tree larger than the limit, nothing may be expanded afterwards - which is 'never exceeds the limit by more than one vertex's out-degree' - and it may not fire earlier; sub-searches of k-shortest-paths are not walked under size limits".into(),
+            "the solution-size limit is walked with a reference model of the search tree (the distinct vertices reached through admitted edges so far; agreement with the size every returned search reports is counted in reach): it must fire at the first loop turn that finds the tree larger than the limit, nothing may be expanded afterwards - which is 'never exceeds the limit by more than one vertex's out-degree' - and it may not fire earlier; the sub-searches of single-via k-shortest-paths are not walked turn by turn under size limits (outcome only)".into(),
             "k-shortest-path sub-searches: single-via (family ksp) - the forward and the reverse search are both walked under runtime / iteration / combined limits, the reverse walk only in worlds where every vertex is entered by some edge; Yen's (family yens) - every sub-search is walked under every limit kind, its history split at the cost-estimate calls; one constellation is undecidable and counted, not judged (yens_walk_ambiguous_tail)".into(),
             "iteration and size clauses contain no clock or schedule: that part is an input sweep executed inside the simulator".into(),
         ]
